@@ -171,7 +171,7 @@ theorem C02_rerun_same_strategy_object (cfg : Cfg) (sc : Script) (trigs : List T
 /-! ### the unrepaired behaviour, as a kernel-checked witness: without the reset the second run of a 2-minute period trigger over
     four one-minute bars is silent (its due time, left by the first run, lies beyond the data) -/
 
-def Core.rerunCfg : Cfg := { markets := [⟨[0, 60, 120, 180], false⟩], priceIdx := [0, 60, 120, 180], Δ := 60, resample := false }
+def Core.rerunCfg : Cfg := { markets := [{ idx := [0, 60, 120, 180], openCb := false }], priceIdx := [0, 60, 120, 180], Δ := 60, resample := false }
 def Core.rerunScript : Script :=
   { init := [], before := fun _ => [], fire := fun _ _ => [], openCb := fun _ _ => [], on := fun _ => [], after := fun _ => [], upd := fun _ _ => [] }
 def Core.rerunTrigs : List Trig := install [("", .period 120 true 0 none), ("", .atTime 60)]
